@@ -80,15 +80,15 @@ Definition add_entity (G : globals) (g : ginstr) : globals :=
 
 Definition apply_outcome (st : gstate) (o : outcome) : gstate :=
   match o with
-  | Admit g => GState (add_entity (gs_globals st) g) (gs_stack st ++ [g]) (gs_errs st)
-  | Reject e => g_add_error e st
+  | Registers g => GState (add_entity (gs_globals st) g) (gs_stack st ++ [g]) (gs_errs st)
+  | Reports e => g_add_error e st
   end.
 
 Definition apply_outcomes (st : gstate) (l : list outcome) : gstate :=
   let G := gs_globals st in
-  GState (Globals (g_types G ++ types_of (admitted l)) (g_consts G ++ consts_of (admitted l))
-                  (g_funcs G ++ funcs_of (admitted l)))
-         (gs_stack st ++ admitted l) (gs_errs st ++ rejected l).
+  GState (Globals (g_types G ++ types_of (registered l)) (g_consts G ++ consts_of (registered l))
+                  (g_funcs G ++ funcs_of (registered l)))
+         (gs_stack st ++ registered l) (gs_errs st ++ reported l).
 
 Lemma apply_outcomes_nil st : apply_outcomes st [] = st.
 Proof. destruct st as [[T C F] S E]. unfold apply_outcomes. cbn. rewrite !app_nil_r. reflexivity. Qed.
@@ -175,8 +175,8 @@ Proof.
 Qed.
 
 Lemma const_outcome_cases tok cs n ty v :
-  (exists e, const_outcome tok cs n ty v = Reject e) \/
-  (const_outcome tok cs n ty v = Admit (GConst (spec_const n ty v)) /\ smem (iname n) cs = false).
+  (exists e, const_outcome tok cs n ty v = Reports e) \/
+  (const_outcome tok cs n ty v = Registers (GConst (spec_const n ty v)) /\ smem (iname n) cs = false).
 Proof.
   unfold const_outcome. destruct (smem (iname n) cs); [left; eexists; reflexivity|].
   destruct (missing_const cs (ce_rest v)); [left; eexists; reflexivity|].
@@ -184,8 +184,8 @@ Proof.
 Qed.
 
 Lemma fn_outcome_cases tok fs f :
-  (exists e, fn_outcome tok fs f = Reject e) \/
-  (fn_outcome tok fs f = Admit (spec_fn_instr f) /\ smem (iname (fn_name f)) fs = false).
+  (exists e, fn_outcome tok fs f = Reports e) \/
+  (fn_outcome tok fs f = Registers (spec_fn_instr f) /\ smem (iname (fn_name f)) fs = false).
 Proof.
   unfold fn_outcome. cbv zeta. destruct (smem (iname (fn_name f)) fs); [left; eexists; reflexivity|].
   destruct (tok (sem_of_ty (fn_result f))); [|left; eexists; reflexivity].
@@ -204,25 +204,25 @@ Proof.
     + rewrite (decl_const_spec st cs) by exact Hc. rewrite HT. cbv zeta.
       rewrite <- apply_outcomes_cons.
       destruct (const_outcome_cases (type_ok T) cs n ty v) as [[e He]|[He Hs]]; rewrite He;
-        cbn [is_admit]; apply IH; try assumption.
+        cbn [is_reg]; apply IH; try assumption.
       cbn. apply keys_agree_snoc. exact Hc.
     + rewrite (decl_fn_spec st fs) by exact Hf. rewrite HT. cbv zeta.
       rewrite <- apply_outcomes_cons.
       destruct (fn_outcome_cases (type_ok T) fs f) as [[e He]|[He Hs]]; rewrite He;
-        cbn [is_admit]; apply IH; try assumption.
+        cbn [is_reg]; apply IH; try assumption.
       cbn. apply keys_agree_snoc. exact Hf.
 Qed.
 
 (** Pass 1 registers only types, pass 2 only constants and functions. *)
 Lemma pass1_no_consts : forall p seen,
-  consts_of (admitted (pass1 seen p)) = [] /\ funcs_of (admitted (pass1 seen p)) = [].
+  consts_of (registered (pass1 seen p)) = [] /\ funcs_of (registered (pass1 seen p)) = [].
 Proof.
   induction p as [|t p IH]; intro seen; cbn [pass1]; [split; reflexivity|].
   destruct t as [path | n a | n ty v | f]; try apply IH.
   destruct (smem (iname n) seen); cbn; apply IH.
 Qed.
 
-Lemma pass2_no_types tok : forall p cs fs, types_of (admitted (pass2 tok cs fs p)) = [].
+Lemma pass2_no_types tok : forall p cs fs, types_of (registered (pass2 tok cs fs p)) = [].
 Proof.
   induction p as [|t p IH]; intros cs fs; cbn [pass2]; [reflexivity|].
   destruct t as [path | n a | n ty v | f]; try apply IH; cbv zeta.
@@ -247,8 +247,8 @@ Qed.
 
 (** ** The keys of every table are duplicate-free *)
 Lemma pass1_keys : forall p seen,
-  NoDup (map fst (types_of (admitted (pass1 seen p)))) /\
-  (forall k, In k (map fst (types_of (admitted (pass1 seen p)))) -> smem k seen = false).
+  NoDup (map fst (types_of (registered (pass1 seen p)))) /\
+  (forall k, In k (map fst (types_of (registered (pass1 seen p)))) -> smem k seen = false).
 Proof.
   induction p as [|t p IH]; intro seen; cbn [pass1].
   - split; [constructor | intros k []].
@@ -262,22 +262,22 @@ Proof.
 Qed.
 
 Lemma pass2_keys tok : forall p cs fs,
-  (NoDup (map fst (consts_of (admitted (pass2 tok cs fs p)))) /\
-   (forall k, In k (map fst (consts_of (admitted (pass2 tok cs fs p)))) -> smem k cs = false)) /\
-  (NoDup (map fst (funcs_of (admitted (pass2 tok cs fs p)))) /\
-   (forall k, In k (map fst (funcs_of (admitted (pass2 tok cs fs p)))) -> smem k fs = false)).
+  (NoDup (map fst (consts_of (registered (pass2 tok cs fs p)))) /\
+   (forall k, In k (map fst (consts_of (registered (pass2 tok cs fs p)))) -> smem k cs = false)) /\
+  (NoDup (map fst (funcs_of (registered (pass2 tok cs fs p)))) /\
+   (forall k, In k (map fst (funcs_of (registered (pass2 tok cs fs p)))) -> smem k fs = false)).
 Proof.
   induction p as [|t p IH]; intros cs fs; cbn [pass2].
   - split; (split; [constructor | intros k []]).
   - destruct t as [path | n a | n ty v | f]; try apply IH; cbv zeta.
-    + destruct (const_outcome_cases tok cs n ty v) as [[e He]|[He Hs]]; rewrite He; cbn [is_admit];
+    + destruct (const_outcome_cases tok cs n ty v) as [[e He]|[He Hs]]; rewrite He; cbn [is_reg];
         [apply IH|].
       destruct (IH (iname n :: cs) fs) as [[Hnd Hin] Hfun]. cbn. split; [|exact Hfun]. split.
       * constructor; [|exact Hnd]. intro H. apply Hin in H. cbn in H.
         rewrite String.eqb_refl in H. discriminate.
       * intros k [Hk|Hk]; [subst; exact Hs|]. apply Hin in Hk. cbn in Hk.
         destruct (String.eqb k (iname n)); [discriminate | exact Hk].
-    + destruct (fn_outcome_cases tok fs f) as [[e He]|[He Hs]]; rewrite He; cbn [is_admit];
+    + destruct (fn_outcome_cases tok fs f) as [[e He]|[He Hs]]; rewrite He; cbn [is_reg];
         [apply IH|].
       destruct (IH cs (iname (fn_name f) :: fs)) as [Hcon [Hnd Hin]]. cbn. split; [exact Hcon|]. split.
       * constructor; [|exact Hnd]. intro H. apply Hin in H. cbn in H.
@@ -296,7 +296,7 @@ Qed.
 (** ** One stack entry per table entry *)
 
 (** The table entry an instruction of the global stack declares is in its table. *)
-Definition ginstr_registered (G : globals) (g : ginstr) : Prop :=
+Definition ginstr_in_tables (G : globals) (g : ginstr) : Prop :=
   match g with
   | GTypes t => alookup (type_name t) (g_types G) = Some t
   | GConst c => alookup (c_name c) (g_consts G) = Some c
@@ -346,9 +346,9 @@ Proof.
     + inversion Hf; assumption.
 Qed.
 
-Lemma ginstr_registered_all (l : list ginstr) :
+Lemma ginstr_in_tables_all (l : list ginstr) :
   NoDup (map fst (types_of l)) -> NoDup (map fst (consts_of l)) -> NoDup (map fst (funcs_of l)) ->
-  Forall (ginstr_registered (Globals (types_of l) (consts_of l) (funcs_of l))) l.
+  Forall (ginstr_in_tables (Globals (types_of l) (consts_of l) (funcs_of l))) l.
 Proof.
   intros Ht Hc Hf. apply Forall_forall. intros g Hg.
   destruct g as [t|c|n ps r]; cbn; apply in_alookup; try assumption;
@@ -377,12 +377,12 @@ Theorem spec_gstack_tables p :
   length (spec_gstack p) =
     (length (spec_types p) + length (spec_consts p) + length (spec_funcs p))%nat /\
   NoDup (map ginstr_key (spec_gstack p)) /\
-  Forall (ginstr_registered (spec_globals p)) (spec_gstack p).
+  Forall (ginstr_in_tables (spec_globals p)) (spec_gstack p).
 Proof.
   destruct (spec_tables_of_gstack p) as [Ht [Hc Hf]].
   destruct (spec_tables_nodup p) as [Nt [Nc Nf]].
   unfold spec_globals. rewrite Ht, Hc, Hf in *.
-  split; [apply tables_length|]. split; [apply ginstr_key_nodup | apply ginstr_registered_all];
+  split; [apply tables_length|]. split; [apply ginstr_key_nodup | apply ginstr_in_tables_all];
     assumption.
 Qed.
 
@@ -444,7 +444,7 @@ Definition C15_statement (p : program) (out : output) : Prop :=
      (length (g_types (o_globals out)) + length (g_consts (o_globals out)) +
       length (g_funcs (o_globals out)))%nat /\
    NoDup (map ginstr_key (o_gstack out)) /\
-   Forall (ginstr_registered (o_globals out)) (o_gstack out)).
+   Forall (ginstr_in_tables (o_globals out)) (o_gstack out)).
 
 Theorem run_C15 : forall p out, run p = ROk out -> C15_statement p out.
 Proof.
@@ -1067,7 +1067,7 @@ Qed.
 (** ** Pass 1 without duplicate struct names: every declaration is registered, none reported *)
 Lemma pass1_nodup : forall p seen,
   NoDup (struct_names p) -> (forall k, In k (struct_names p) -> smem k seen = false) ->
-  types_of (admitted (pass1 seen p)) = struct_decls p /\ rejected (pass1 seen p) = [].
+  types_of (registered (pass1 seen p)) = struct_decls p /\ reported (pass1 seen p) = [].
 Proof.
   induction p as [|t p IH]; intros seen Hnd Hseen; [split; reflexivity|].
   destruct t as [path | n a | n ty v | f]; cbn [pass1]; try (apply IH; assumption).
@@ -1110,12 +1110,12 @@ Proof. intro H. unfold fn_outcome. cbv zeta. rewrite H. reflexivity. Qed.
 
 (** The constants part of pass 2 depends only on the constant declarations, in their order. *)
 Lemma pass2_consts tok : forall p cs fs,
-  consts_of (admitted (pass2 tok cs fs p)) =
-  consts_of (admitted (pass2 tok cs [] (filter is_const p))).
+  consts_of (registered (pass2 tok cs fs p)) =
+  consts_of (registered (pass2 tok cs [] (filter is_const p))).
 Proof.
   induction p as [|t p IH]; intros cs fs; [reflexivity|].
   destruct t as [path | n a | n ty v | f]; cbn [pass2 filter is_const]; try apply IH; cbv zeta.
-  - destruct (const_outcome_cases tok cs n ty v) as [[e He]|[He Hs]]; rewrite He; cbn [is_admit].
+  - destruct (const_outcome_cases tok cs n ty v) as [[e He]|[He Hs]]; rewrite He; cbn [is_reg].
     + cbn. apply IH.
     + cbn. f_equal. apply IH.
   - destruct (fn_outcome_cases tok fs f) as [[e He]|[He Hs]]; rewrite He; cbn; apply IH.
@@ -1124,8 +1124,8 @@ Qed.
 (** Without duplicate function names every function declaration is judged on its own. *)
 Lemma pass2_funcs tok : forall p cs fs,
   NoDup (fn_names p) -> (forall k, In k (fn_names p) -> smem k fs = false) ->
-  funcs_of (admitted (pass2 tok cs fs p)) =
-  flat_map (fun f => funcs_of (admitted [fn_outcome tok [] f])) (functions_of p).
+  funcs_of (registered (pass2 tok cs fs p)) =
+  flat_map (fun f => funcs_of (registered [fn_outcome tok [] f])) (functions_of p).
 Proof.
   induction p as [|t p IH]; intros cs fs Hnd Hfs; [reflexivity|].
   destruct t as [path | n a | n ty v | f]; cbn [pass2]; try (apply IH; assumption); cbv zeta.
@@ -1134,7 +1134,7 @@ Proof.
   - cbn in Hnd, Hfs. inversion Hnd as [|? ? Hni Hnd']; subst.
     rewrite (fn_outcome_fresh tok fs f) by (apply Hfs; left; reflexivity).
     change (functions_of (TFn f :: p)) with (f :: functions_of p). cbn [flat_map].
-    destruct (fn_outcome_cases tok [] f) as [[e He]|[He Hs]]; rewrite He; cbn [is_admit].
+    destruct (fn_outcome_cases tok [] f) as [[e He]|[He Hs]]; rewrite He; cbn [is_reg].
     + cbn. apply IH; [exact Hnd' | intros k Hk; apply Hfs; right; exact Hk].
     + cbn. f_equal. apply IH; [exact Hnd'|].
       intros k Hk. apply smem_cons_false; [intro; subst; contradiction | apply Hfs; right; exact Hk].
@@ -1142,20 +1142,20 @@ Qed.
 
 Lemma pass2_errs tok : forall p cs fs,
   NoDup (fn_names p) -> (forall k, In k (fn_names p) -> smem k fs = false) ->
-  Permutation (rejected (pass2 tok cs fs p))
-              (rejected (pass2 tok cs [] (filter is_const p)) ++
-               flat_map (fun f => rejected [fn_outcome tok [] f]) (functions_of p)).
+  Permutation (reported (pass2 tok cs fs p))
+              (reported (pass2 tok cs [] (filter is_const p)) ++
+               flat_map (fun f => reported [fn_outcome tok [] f]) (functions_of p)).
 Proof.
   induction p as [|t p IH]; intros cs fs Hnd Hfs; [constructor|].
   destruct t as [path | n a | n ty v | f]; cbn [pass2 filter is_const];
     try (apply IH; assumption); cbv zeta.
-  - destruct (const_outcome_cases tok cs n ty v) as [[e He]|[He Hs]]; rewrite He; cbn [is_admit].
+  - destruct (const_outcome_cases tok cs n ty v) as [[e He]|[He Hs]]; rewrite He; cbn [is_reg].
     + cbn. constructor. apply IH; assumption.
     + cbn. apply IH; assumption.
   - cbn in Hnd, Hfs. inversion Hnd as [|? ? Hni Hnd']; subst.
     rewrite (fn_outcome_fresh tok fs f) by (apply Hfs; left; reflexivity).
     change (functions_of (TFn f :: p)) with (f :: functions_of p). cbn [flat_map].
-    destruct (fn_outcome_cases tok [] f) as [[e He]|[He Hs]]; rewrite He; cbn [is_admit].
+    destruct (fn_outcome_cases tok [] f) as [[e He]|[He Hs]]; rewrite He; cbn [is_reg].
     + cbn. apply Permutation_cons_app. apply IH; [exact Hnd' | intros k Hk; apply Hfs; right; exact Hk].
     + cbn. apply IH; [exact Hnd'|].
       intros k Hk. apply smem_cons_false; [intro; subst; contradiction | apply Hfs; right; exact Hk].
@@ -1201,7 +1201,7 @@ Section Reorder.
     unfold spec_funcs, spec_pass2.
     rewrite (pass2_funcs _ p [] [] Hfns (fun _ _ => eq_refl)).
     rewrite (pass2_funcs _ p' [] [] reorder_fns' (fun _ _ => eq_refl)).
-    rewrite (flat_map_ext _ _ (fun f => f_equal (fun o => funcs_of (admitted [o]))
+    rewrite (flat_map_ext _ _ (fun f => f_equal (fun o => funcs_of (registered [o]))
                                          (fn_outcome_ext _ _ reorder_type_ok [] f))).
     apply Permutation_flat_map, reorder_functions.
   Qed.
@@ -1216,7 +1216,7 @@ Section Reorder.
     rewrite (pass2_errs _ p' [] [] reorder_fns' (fun _ _ => eq_refl)).
     rewrite Hconsts, (pass2_ext _ _ reorder_type_ok).
     apply Permutation_app_head.
-    rewrite (flat_map_ext _ _ (fun f => f_equal (fun o => rejected [o])
+    rewrite (flat_map_ext _ _ (fun f => f_equal (fun o => reported [o])
                                          (fn_outcome_ext _ _ reorder_type_ok [] f))).
     apply Permutation_flat_map, reorder_functions.
   Qed.
@@ -1321,3 +1321,119 @@ Qed.
 
 Print Assumptions run_reorder.
 Print Assumptions run_reorder_roots.
+
+(** * C15, continued: a second declaration of a name is reported and never replaces the first *)
+
+(** A declaration whose name is already in its table only adds the "already exists" diagnostic:
+    tables and stack are unchanged. *)
+Theorem duplicate_reported_and_ignored : forall st,
+  (forall n a, amem (iname n) (g_types (gs_globals st)) = true ->
+     pass_types st (TStructDecl n a) =
+     g_add_error (Err ETypeAlreadyExist (Some (iname n)) (iloc n)) st) /\
+  (forall n ty v, amem (iname n) (g_consts (gs_globals st)) = true ->
+     pass_decls st (TConst n ty v) =
+     g_add_error (Err EConstantAlreadyExist (Some (iname n)) (iloc n)) st) /\
+  (forall f, amem (iname (fn_name f)) (g_funcs (gs_globals st)) = true ->
+     pass_decls st (TFn f) =
+     g_add_error (Err EFunctionAlreadyExist (Some (iname (fn_name f))) (iloc (fn_name f))) st).
+Proof.
+  intro st. repeat split.
+  - intros n a H. cbn [pass_types]. unfold decl_type. rewrite H. reflexivity.
+  - intros n ty v H. cbn [pass_decls]. unfold decl_const. rewrite H. reflexivity.
+  - intros f H. cbn [pass_decls]. unfold decl_fn. cbv zeta. rewrite H. reflexivity.
+Qed.
+
+(** [G'] extends [G]: every table of [G'] is the table of [G] with bindings appended. *)
+Definition gext (G G' : globals) : Prop :=
+  exists lt lc lf,
+    G' = Globals (g_types G ++ lt) (g_consts G ++ lc) (g_funcs G ++ lf).
+
+Lemma gext_refl G : gext G G.
+Proof. exists [], [], []. destruct G; cbn. rewrite !app_nil_r. reflexivity. Qed.
+
+Lemma gext_trans G1 G2 G3 : gext G1 G2 -> gext G2 G3 -> gext G1 G3.
+Proof.
+  intros [a [b [c H]]] [a' [b' [c' H']]]. subst. cbn in *.
+  exists (a ++ a'), (b ++ b'), (c ++ c'). rewrite !app_assoc. reflexivity.
+Qed.
+
+Lemma gext_apply_outcome st o : gext (gs_globals st) (gs_globals (apply_outcome st o)).
+Proof.
+  destruct st as [[T C F] S E]. destruct o as [[t|c|n ps r]|e]; cbn.
+  - exists [(type_name t, t)], [], []. rewrite !app_nil_r. reflexivity.
+  - exists [], [(c_name c, c)], []. rewrite !app_nil_r. reflexivity.
+  - exists [], [], [(n, Func n r (map snd ps))]. rewrite !app_nil_r. reflexivity.
+  - apply gext_refl.
+Qed.
+
+Lemma smem_map_fst {V} (l : list (string * V)) : keys_agree (map fst l) l.
+Proof.
+  intro k. unfold amem. induction l as [|[k' v] l IH]; cbn; [reflexivity|].
+  destruct (String.eqb k k'); [reflexivity | exact IH].
+Qed.
+
+Lemma pass_types_step_ext st t : gext (gs_globals st) (gs_globals (pass_types st t)).
+Proof.
+  destruct t as [path | n a | n ty v | f]; cbn [pass_types]; try apply gext_refl.
+  pose proof (pass_types_spec [TStructDecl n a] st _ (smem_map_fst _)) as H. cbn [fold_left pass_types] in H.
+  rewrite H. cbn [pass1]. destruct (smem (iname n) (map fst (g_types (gs_globals st))));
+    rewrite <- apply_outcomes_cons, apply_outcomes_nil; apply gext_apply_outcome.
+Qed.
+
+Lemma pass_decls_step_ext st t : gext (gs_globals st) (gs_globals (pass_decls st t)).
+Proof.
+  destruct t as [path | n a | n ty v | f]; cbn [pass_decls]; try apply gext_refl.
+  - rewrite (decl_const_spec st _ n ty v (smem_map_fst _)). apply gext_apply_outcome.
+  - rewrite (decl_fn_spec st _ f (smem_map_fst _)). apply gext_apply_outcome.
+Qed.
+
+(** Every step of either pass only appends bindings, so a binding once made stays, under the
+    same name and with the same entry, whatever is declared afterwards. *)
+Theorem passes_only_extend : forall p st,
+  gext (gs_globals st) (gs_globals (fold_left pass_types p st)) /\
+  gext (gs_globals st) (gs_globals (fold_left pass_decls p st)).
+Proof.
+  induction p as [|t p IH]; intro st; cbn [fold_left]; [split; apply gext_refl|].
+  split; (eapply gext_trans; [|apply IH]); [apply pass_types_step_ext | apply pass_decls_step_ext].
+Qed.
+
+Theorem gext_bindings_stay G G' : gext G G' ->
+  (forall k v, alookup k (g_types G) = Some v -> alookup k (g_types G') = Some v) /\
+  (forall k v, alookup k (g_consts G) = Some v -> alookup k (g_consts G') = Some v) /\
+  (forall k v, alookup k (g_funcs G) = Some v -> alookup k (g_funcs G') = Some v).
+Proof.
+  intros [a [b [c H]]]. subst. cbn. repeat split; intros k v Hk; rewrite alookup_app, Hk; reflexivity.
+Qed.
+
+(** The declaration-phase diagnostics of the model are those of the specification, and they
+    open the program's error list. *)
+Theorem run_decl_errors : forall p out,
+  run p = ROk out ->
+  gs_errs (declarations p) = spec_decl_errs p /\
+  exists body_errs, o_errors out = spec_decl_errs p ++ body_errs.
+Proof.
+  intros p out H. destruct (run_errors_decomposition p out H) as [He _].
+  rewrite declarations_spec in *. cbn [gs_errs] in *. split; [reflexivity|].
+  eexists; exact He.
+Qed.
+
+Print Assumptions duplicate_reported_and_ignored.
+Print Assumptions passes_only_extend.
+Print Assumptions run_decl_errors.
+
+(** Whatever is declared later, a binding made by an earlier declaration is still there at the
+    end of its pass, under the same name and with the same entry. *)
+Theorem first_declaration_wins : forall p st,
+  (forall k v, alookup k (g_types (gs_globals st)) = Some v ->
+               alookup k (g_types (gs_globals (fold_left pass_types p st))) = Some v) /\
+  (forall k v, alookup k (g_consts (gs_globals st)) = Some v ->
+               alookup k (g_consts (gs_globals (fold_left pass_decls p st))) = Some v) /\
+  (forall k v, alookup k (g_funcs (gs_globals st)) = Some v ->
+               alookup k (g_funcs (gs_globals (fold_left pass_decls p st))) = Some v).
+Proof.
+  intros p st. destruct (passes_only_extend p st) as [H1 H2].
+  apply gext_bindings_stay in H1. apply gext_bindings_stay in H2.
+  split; [apply H1 | split; apply H2].
+Qed.
+
+Print Assumptions first_declaration_wins.
